@@ -7,12 +7,17 @@ rounding inside np.interp is outside the model: PARTIAL).
 Layout: the 1-D kernel theorems first; then the END-TO-END theorems about `Lib.interpAxis` (N-d, labels stored
 in any order): `interpAxis_spec` / `InterpolatesAlong` with its corollaries (`node`, `left_fill`, `right_fill`,
 `between`, `between_bounds`), `interpAxis_order_independent`, the failure cases, `interpAxis_successive`; then the
-Dataset variant `DSV.interpAxisDs_spec` (mirror in `Lib/DatasetInterp.lean`).  `interp_like` has no mirror.
+Dataset variant `DSV.interpAxisDs_spec` (mirror in `Lib/DatasetInterp.lean`); then `interp_like` and
+`Dataset.interp_like` (mirrors in `Lib/InterpLike.lean`): `interpLike_eq_successive`, `interpLike_spec` (`InterpChain`),
+`interpLike_two` (bilinear composition), `interpLike_order_independent`, `DSV.interpLikeDs_spec`.
 -/
 import DimModel.Lib.Interp
+import DimModel.Lib.InterpLike
 import DimModel.Proofs.C18
 import DimModel.Proofs.C18Axis
 import DimModel.Proofs.C18Ds
+import DimModel.Proofs.C18Like
+import DimModel.Proofs.C16
 import DimModel.Props.C14
 import Mathlib.Tactic.NormNum
 namespace DimModel
@@ -621,8 +626,8 @@ example :
       (Or.inl ⟨.str "a", by decide, rfl⟩)
   · exact interpAxis_bad_axis linRat interpExArr (.name "z") _ .f 0 0 .value (by decide)
 
-/-! ### successive interpolation along two dimensions (the step `interp_like` iterates; `interp_like` itself has
-no mirror in `Lib`) -/
+/-! ### successive interpolation along two dimensions (the step `interp_like` iterates; `interp_like` itself:
+see the section on `Lib.interpLike` at the end of this file) -/
 
 /-- interpolation does not rename any dimension -/
 theorem InterpolatesAlong.names {α : Type} [Inhabited α] {lin : α → α → Rat → α} {a r : DimArray α} {pos : Nat}
@@ -804,6 +809,894 @@ example : ∃ out, interpAxisDs (fun a _ _ => a) exDs "x" ([15, 10, 99].map Labe
     exact hr
   · obtain ⟨r, hr, hin, _⟩ := h5 "a" exA (by simp [exDs])
     exact ⟨r, hr, hin (by simp [exA, DimArray.dims, exX])⟩
+
+end DSV
+
+/-! ## `interp_like`
+
+`interp_like(other, left, right)` (`Lib.interpLike`, mirror of core/transform.py) walks over the array's OWN axes in
+their stored order and calls `interp_axis` by name along every dimension whose name the template has, with that
+template axis' labels as new coordinates and the same two fills every time. -/
+
+open C18L
+
+/-- the dimensions an array shares with a template, in the order of the array's axes: position, the array's axis,
+the template's (first) axis of that name -/
+def sharedAxes (axes tmpl : List Axis) : List (Nat × Axis × Axis) :=
+  axes.zipIdx.filterMap fun e => (tmpl.find? (·.name == e.1.name)).map fun t => (e.2, e.1, t)
+
+/-- what the list contains: exactly the positions whose axis name the template has, each once, in increasing order
+of position (`sharedAxes_positions`) -/
+theorem mem_sharedAxes (axes tmpl : List Axis) (p : Nat) (ax t : Axis) :
+    (p, ax, t) ∈ sharedAxes axes tmpl ↔ axes[p]? = some ax ∧ tmpl.find? (·.name == ax.name) = some t := by
+  unfold sharedAxes
+  rw [List.mem_filterMap]
+  constructor
+  · rintro ⟨⟨ax', p'⟩, hmem, heq⟩
+    rw [List.mem_zipIdx_iff_getElem?] at hmem
+    simp only at hmem heq
+    cases hf : tmpl.find? (·.name == ax'.name) with
+    | none => rw [hf] at heq; cases heq
+    | some t' =>
+      rw [hf] at heq
+      simp only [Option.map_some, Option.some.injEq, Prod.mk.injEq] at heq
+      obtain ⟨rfl, rfl, rfl⟩ := heq
+      exact ⟨hmem, hf⟩
+  · rintro ⟨hax, hf⟩
+    refine ⟨(ax, p), ?_, ?_⟩
+    · rw [List.mem_zipIdx_iff_getElem?]; exact hax
+    · simp only [hf, Option.map_some]
+
+theorem sharedAxes_positions (axes tmpl : List Axis) :
+    ((sharedAxes axes tmpl).map (·.1)).Pairwise (· < ·) := by
+  have key : ∀ (l : List Axis) (n : Nat), ((sharedFrom n l tmpl).map (·.1)).Pairwise (· < ·) ∧
+      ∀ q ∈ (sharedFrom n l tmpl).map (·.1), n ≤ q := by
+    intro l
+    induction l with
+    | nil => intro n; exact ⟨List.Pairwise.nil, fun q hq => by simp [sharedFrom] at hq⟩
+    | cons ax l ih =>
+      intro n
+      obtain ⟨h1, h2⟩ := ih (n + 1)
+      cases hf : tmpl.find? (·.name == ax.name) with
+      | none =>
+        rw [sharedFrom_cons_none n ax l tmpl hf]
+        exact ⟨h1, fun q hq => by have := h2 q hq; omega⟩
+      | some t =>
+        rw [sharedFrom_cons_some n ax t l tmpl hf, List.map_cons]
+        refine ⟨List.pairwise_cons.mpr ⟨fun q hq => by have := h2 q hq; omega, h1⟩, ?_⟩
+        intro q hq
+        rcases List.mem_cons.mp hq with rfl | hq
+        · exact Nat.le_refl _
+        · have := h2 q hq; omega
+  exact (key axes 0).1
+
+/-- **`interp_like` is successive `interp_axis`**, by name, along the shared dimensions only, in the order of the
+array's axes (an unconditional equation: same result, same error) -/
+theorem interpLike_eq_successive {α : Type} [Inhabited α] (lin : α → α → Rat → α) (a : DimArray α) (tmpl : List Axis)
+    (left right : α) :
+    interpLike lin a tmpl left right =
+      (sharedAxes a.axes tmpl).foldlM
+        (fun o e => interpAxis lin o (.name e.2.1.name) e.2.2.labels e.2.2.kind left right) a :=
+  interpLike_fold lin tmpl left right a.axes 0 a
+
+/-- no shared dimension: the array itself -/
+theorem interpLike_no_shared {α : Type} [Inhabited α] (lin : α → α → Rat → α) (a : DimArray α) (tmpl : List Axis)
+    (left right : α) (h : ∀ ax ∈ a.axes, tmpl.find? (·.name == ax.name) = none) :
+    interpLike lin a tmpl left right = .ok a := by
+  rw [interpLike_eq_successive]
+  have : sharedAxes a.axes tmpl = [] := by
+    unfold sharedAxes
+    rw [List.filterMap_eq_nil_iff]
+    intro e he
+    have hm : e.1 ∈ a.axes := by
+      have := List.mem_map_of_mem (f := fun e : Axis × Nat => e.1) he
+      rwa [zipIdx_map_fst] at this
+    rw [h e.1 hm]; rfl
+  rw [this]; rfl
+
+/-- one shared dimension: `interp_axis` along it -/
+theorem interpLike_one {α : Type} [Inhabited α] (lin : α → α → Rat → α) (a : DimArray α) (tmpl : List Axis)
+    (left right : α) (p : Nat) (ax t : Axis) (h : sharedAxes a.axes tmpl = [(p, ax, t)]) :
+    interpLike lin a tmpl left right = interpAxis lin a (.name ax.name) t.labels t.kind left right := by
+  rw [interpLike_eq_successive, h]
+  simp only [List.foldlM_cons, List.foldlM_nil]
+  cases interpAxis lin a (.name ax.name) t.labels t.kind left right <;> rfl
+
+/-- the axis of the result for an axis of the array: the template's labels (and their dtype kind) under the array's
+name where the template has the name, the array's axis itself where it has not -/
+def likeAxis (tmpl : List Axis) (ax : Axis) : Axis :=
+  match tmpl.find? (·.name == ax.name) with
+  | some t => { name := ax.name, labels := t.labels, kind := t.kind }
+  | none => ax
+
+/-- `r` is reached from `a` by interpolating along the listed shared dimensions one after the other: every step is a
+successful `interp_axis` call by name, on the result of the previous one, that satisfies the per-fibre specification
+`InterpolatesAlong` for the numeric labels `xs` of the array's axis and the numeric labels `nx` of the template's -/
+inductive InterpChain {α : Type} [Inhabited α] (lin : α → α → Rat → α) (left right : α) :
+    List (Nat × Axis × Axis) → DimArray α → DimArray α → Prop
+  | nil (a : DimArray α) : InterpChain lin left right [] a a
+  | cons {p : Nat} {ax t : Axis} {xs nx : List Rat} {a r1 r : DimArray α} {rest : List (Nat × Axis × Axis)}
+      (hxs : ax.labels = xs.map Label.num) (hnx : t.labels = nx.map Label.num)
+      (hcall : interpAxis lin a (.name ax.name) t.labels t.kind left right = .ok r1)
+      (hstep : InterpolatesAlong lin a r1 p ax xs nx t.kind left right)
+      (hrest : InterpChain lin left right rest r1 r) :
+      InterpChain lin left right ((p, ax, t) :: rest) a r
+
+/-- the axes of an `InterpolatesAlong` result as a list -/
+theorem InterpolatesAlong.axes_eq {α : Type} [Inhabited α] {lin : α → α → Rat → α} {a r : DimArray α} {pos : Nat}
+    {ax : Axis} {xs nx : List Rat} {nk : Kind} {left right : α}
+    (h : InterpolatesAlong lin a r pos ax xs nx nk left right) :
+    r.axes = a.axes.set pos { name := ax.name, labels := nx.map Label.num, kind := nk } := by
+  apply List.ext_getElem?
+  intro i
+  by_cases hi : i = pos
+  · subst hi
+    rw [h.axis]
+    have hlt : i < a.axes.length := by
+      rw [← h.ndim]
+      exact (List.getElem?_eq_some_iff.mp h.axis).1
+    rw [List.getElem?_set_self hlt]
+  · rw [h.others i hi, List.getElem?_set_ne (Ne.symm hi)]
+
+/-- the loop of `interp_like` from the `n`-th axis on, the axes before `n` being done -/
+private theorem interpLike_suffix {α : Type} [Inhabited α] (lin : α → α → Rat → α) (tmpl : List Axis) (left right : α) :
+    ∀ (l : List Axis) (n : Nat) (obj : DimArray α), obj.WF → obj.axes.drop n = l →
+      (∀ ax ∈ l, ∀ t, tmpl.find? (·.name == ax.name) = some t →
+        ∃ xs nx : List Rat, ax.labels = xs.map Label.num ∧ xs ≠ [] ∧ xs.Nodup ∧ t.labels = nx.map Label.num) →
+      ∃ r, l.foldlM (interpLikeStep lin tmpl left right) obj = .ok r ∧
+        InterpChain lin left right (sharedFrom n l tmpl) obj r ∧ r.WF ∧ r.attrs = obj.attrs ∧
+        r.axes = obj.axes.take n ++ l.map (likeAxis tmpl) ∧
+        (sharedFrom n l tmpl = [] → r = obj) ∧ (sharedFrom n l tmpl ≠ [] → r.vkind = Kind.f) := by
+  intro l
+  induction l with
+  | nil =>
+    intro n obj _ hdrop _
+    refine ⟨obj, rfl, InterpChain.nil obj, ‹_›, rfl, ?_, fun _ => rfl, fun h => absurd rfl h⟩
+    rw [List.map_nil, List.append_nil]
+    have : obj.axes.length ≤ n := by
+      rcases Nat.lt_or_ge n obj.axes.length with h | h
+      · have := congrArg List.length hdrop
+        simp at this; omega
+      · exact h
+    rw [List.take_of_length_le this]
+  | cons ax l ih =>
+    intro n obj hwf hdrop hnum
+    obtain ⟨hlt, hax, hdrop'⟩ := drop_eq_cons hdrop
+    have htake : obj.axes.take (n + 1) = obj.axes.take n ++ [ax] := by
+      rw [List.take_add_one, hax]; rfl
+    rw [List.foldlM_cons]
+    cases hf : tmpl.find? (·.name == ax.name) with
+    | none =>
+      have hstep : interpLikeStep lin tmpl left right obj ax = .ok obj := by
+        unfold interpLikeStep; rw [hf]; rfl
+      rw [hstep]
+      obtain ⟨r, hr, hch, hrwf, hat, haxes, hnil, hvk⟩ :=
+        ih (n + 1) obj hwf hdrop' (fun a ha => hnum a (List.mem_cons_of_mem _ ha))
+      have hlike : likeAxis tmpl ax = ax := by unfold likeAxis; rw [hf]
+      rw [sharedFrom_cons_none n ax l tmpl hf]
+      refine ⟨r, hr, hch, hrwf, hat, ?_, hnil, hvk⟩
+      rw [haxes, htake, List.map_cons, hlike, List.append_assoc]; rfl
+    | some t =>
+      obtain ⟨xs, nx, hxs, hne, hnd, hnx⟩ := hnum ax (by simp) t hf
+      have hpos : axisPos obj.axes (.name ax.name) = .ok n := axisPos_name_at hwf.2.1 hax
+      obtain ⟨r1, hr1, h1⟩ := interpAxis_spec lin obj (.name ax.name) n ax xs nx t.kind left right hwf hpos hax hxs hne hnd
+      have hcall : interpAxis lin obj (.name ax.name) t.labels t.kind left right = .ok r1 := by rw [hnx]; exact hr1
+      have hstep : interpLikeStep lin tmpl left right obj ax = .ok r1 := by
+        unfold interpLikeStep; rw [hf]; exact hcall
+      rw [hstep]
+      have hdrop1 : r1.axes.drop (n + 1) = l := by rw [h1.axes_eq, drop_succ_set]; exact hdrop'
+      obtain ⟨r, hr, hch, hrwf, hat, haxes, hnil, hvk⟩ :=
+        ih (n + 1) r1 h1.wf hdrop1 (fun a ha => hnum a (List.mem_cons_of_mem _ ha))
+      have hlike : likeAxis tmpl ax = { name := ax.name, labels := nx.map Label.num, kind := t.kind } := by
+        unfold likeAxis; rw [hf]; simp only [hnx]
+      rw [sharedFrom_cons_some n ax t l tmpl hf]
+      refine ⟨r, hr, InterpChain.cons hxs hnx hcall h1 hch, hrwf, hat.trans h1.attrs, ?_, (fun h => by cases h), fun _ => ?_⟩
+      · rw [haxes, h1.axes_eq, take_succ_set _ _ _ hlt, List.map_cons, hlike, List.append_assoc]; rfl
+      · by_cases hrest : sharedFrom (n + 1) l tmpl = []
+        · rw [hnil hrest]; exact h1.vkind
+        · exact hvk hrest
+
+/-- **`interp_like`, end to end.** On a well-formed array, every dimension of which that the template shares has
+distinct numeric labels (at least one, stored in any order) and numeric template labels (any, possibly none): the
+call succeeds; the result is reached by interpolating successively along every shared dimension in the order of the
+array's axes, each step satisfying `InterpolatesAlong` (`InterpChain`); the metadata are the array's; the axes of the
+result are the array's axes, those the template shares carrying exactly the template's labels and label kind under
+the array's name, the others untouched; without a shared dimension the result is the array itself, otherwise it is a
+float array. -/
+theorem interpLike_spec {α : Type} [Inhabited α] (lin : α → α → Rat → α) (a : DimArray α) (tmpl : List Axis)
+    (left right : α) (hwf : a.WF)
+    (hnum : ∀ ax ∈ a.axes, ∀ t, tmpl.find? (·.name == ax.name) = some t →
+      ∃ xs nx : List Rat, ax.labels = xs.map Label.num ∧ xs ≠ [] ∧ xs.Nodup ∧ t.labels = nx.map Label.num) :
+    ∃ r, interpLike lin a tmpl left right = .ok r ∧
+      InterpChain lin left right (sharedAxes a.axes tmpl) a r ∧ r.WF ∧ r.attrs = a.attrs ∧
+      r.axes = a.axes.map (likeAxis tmpl) ∧
+      (sharedAxes a.axes tmpl = [] → r = a) ∧ (sharedAxes a.axes tmpl ≠ [] → r.vkind = Kind.f) := by
+  obtain ⟨r, hr, hch, hrwf, hat, haxes, hnil, hvk⟩ :=
+    interpLike_suffix lin tmpl left right a.axes 0 a hwf rfl hnum
+  exact ⟨r, hr, hch, hrwf, hat, by simpa using haxes, hnil, hvk⟩
+
+/-- the axes of the result, one by one: a shared dimension carries exactly the template's labels, a dimension the
+template does not have is untouched -/
+theorem interpLike_axes {α : Type} [Inhabited α] (lin : α → α → Rat → α) (a r : DimArray α) (tmpl : List Axis)
+    (left right : α) (hwf : a.WF)
+    (hnum : ∀ ax ∈ a.axes, ∀ t, tmpl.find? (·.name == ax.name) = some t →
+      ∃ xs nx : List Rat, ax.labels = xs.map Label.num ∧ xs ≠ [] ∧ xs.Nodup ∧ t.labels = nx.map Label.num)
+    (h : interpLike lin a tmpl left right = .ok r) (i : Nat) (ax : Axis) (hax : a.axes[i]? = some ax) :
+    (∀ t, tmpl.find? (·.name == ax.name) = some t →
+      r.axes[i]? = some { name := ax.name, labels := t.labels, kind := t.kind }) ∧
+    (tmpl.find? (·.name == ax.name) = none → r.axes[i]? = some ax) := by
+  obtain ⟨r', hr', -, -, -, haxes, -, -⟩ := interpLike_spec lin a tmpl left right hwf hnum
+  rw [h] at hr'
+  injection hr' with hr'
+  subst hr'
+  rw [haxes, List.getElem?_map, hax]
+  constructor
+  · intro t ht
+    simp only [Option.map_some, likeAxis, ht]
+  · intro hn
+    simp only [Option.map_some, likeAxis, hn]
+
+/-- whenever `interp_like` succeeds (no hypothesis on the labels) the array's metadata are kept; the metadata of the
+axes follow from `interpLike_axes`: a shared axis is a NEW axis (`Axis(values, name)`, no metadata, as for
+`interp_axis`: C16 `interpAxis_axis_attrs`), the other axes are untouched -/
+theorem interpLike_attrs {α : Type} [Inhabited α] (lin : α → α → Rat → α) (a r : DimArray α) (tmpl : List Axis)
+    (left right : α) (h : interpLike lin a tmpl left right = .ok r) : r.attrs = a.attrs := by
+  have key : ∀ (l : List Axis) (obj : DimArray α),
+      l.foldlM (interpLikeStep lin tmpl left right) obj = .ok r → r.attrs = obj.attrs := by
+    intro l
+    induction l with
+    | nil =>
+      intro obj h
+      simp only [List.foldlM_nil, pure, Except.pure] at h
+      injection h with h
+      rw [h]
+    | cons ax l ih =>
+      intro obj h
+      rw [List.foldlM_cons] at h
+      cases hs : interpLikeStep lin tmpl left right obj ax with
+      | error e => rw [hs] at h; cases h
+      | ok o =>
+        rw [hs] at h
+        have ho : o.attrs = obj.attrs := by
+          unfold interpLikeStep at hs
+          cases hf : tmpl.find? (·.name == ax.name) with
+          | none =>
+            rw [hf] at hs
+            simp only [pure, Except.pure] at hs
+            injection hs with hs
+            rw [hs]
+          | some t =>
+            rw [hf] at hs
+            exact (C16.interpAxis_spec lin obj o (.name ax.name) t.labels t.kind left right hs).1
+        exact (ih o h).trans ho
+  exact key a.axes a h
+
+/-- a shared dimension whose labels are not numbers (the array's or the template's), met first: TypeError -/
+theorem interpLike_first_nonnumeric {α : Type} [Inhabited α] (lin : α → α → Rat → α) (a : DimArray α)
+    (tmpl : List Axis) (left right : α) (p : Nat) (ax t : Axis) (rest : List (Nat × Axis × Axis))
+    (hnames : (a.axes.map (·.name)).Nodup) (hsh : sharedAxes a.axes tmpl = (p, ax, t) :: rest)
+    (hbad : (∃ l ∈ ax.labels, l.toRat? = none) ∨ (∃ l ∈ t.labels, l.toRat? = none)) :
+    interpLike lin a tmpl left right = .error .type := by
+  have hmem : (p, ax, t) ∈ sharedAxes a.axes tmpl := by rw [hsh]; simp
+  obtain ⟨hax, -⟩ := (mem_sharedAxes a.axes tmpl p ax t).mp hmem
+  rw [interpLike_eq_successive, hsh, List.foldlM_cons]
+  rw [interpAxis_nonnumeric lin a (.name ax.name) p ax t.labels t.kind left right (axisPos_name_at hnames hax) hax hbad]
+  rfl
+
+/-- **two shared dimensions: bilinear interpolation as a composition.** If the array shares exactly the dimensions
+at `p1 < p2` with the template, `interp_like` is `interp_axis` along `p1` followed by `interp_axis` along `p2`; both
+steps are per-fibre interpolations, and every cell of the result is the 1-D kernel along `p2` applied to the values
+that the 1-D kernel along `p1` yields on the fibres through the cells of that `p2`-fibre (both read in sorted-label
+order, whatever the stored orders). -/
+theorem interpLike_two {α : Type} [Inhabited α] (lin : α → α → Rat → α) (a : DimArray α) (tmpl : List Axis)
+    (left right : α) (p1 p2 : Nat) (ax1 ax2 t1 t2 : Axis) (xs1 nx1 xs2 nx2 : List Rat)
+    (hwf : a.WF) (hsh : sharedAxes a.axes tmpl = [(p1, ax1, t1), (p2, ax2, t2)])
+    (hxs1 : ax1.labels = xs1.map Label.num) (hne1 : xs1 ≠ []) (hnd1 : xs1.Nodup) (hnx1 : t1.labels = nx1.map Label.num)
+    (hxs2 : ax2.labels = xs2.map Label.num) (hne2 : xs2 ≠ []) (hnd2 : xs2.Nodup) (hnx2 : t2.labels = nx2.map Label.num) :
+    ∃ r1 r, interpAxis lin a (.name ax1.name) t1.labels t1.kind left right = .ok r1 ∧
+      interpAxis lin r1 (.name ax2.name) t2.labels t2.kind left right = .ok r ∧
+      interpLike lin a tmpl left right = .ok r ∧
+      InterpolatesAlong lin a r1 p1 ax1 xs1 nx1 t1.kind left right ∧
+      InterpolatesAlong lin r1 r p2 ax2 xs2 nx2 t2.kind left right ∧
+      ∀ σ1 σ2, SortsNodes xs1 σ1 → SortsNodes xs2 σ2 →
+        ∀ (j : List Nat) (i1 i2 : Nat) (x1 x2 : Rat), j[p1]? = some i1 → j[p2]? = some i2 →
+          nx1[i1]? = some x1 → nx2[i2]? = some x2 →
+          r.vals.get j =
+            interpAt lin (σ2.map (fun q => xs2.getD q 0))
+              (σ2.map (fun q =>
+                interpAt lin (σ1.map (fun p => xs1.getD p 0))
+                  (σ1.map (fun p => a.vals.get ((j.set p2 q).set p1 p))) default left right x1))
+              default left right x2 := by
+  have hm1 : (p1, ax1, t1) ∈ sharedAxes a.axes tmpl := by rw [hsh]; simp
+  have hm2 : (p2, ax2, t2) ∈ sharedAxes a.axes tmpl := by rw [hsh]; simp
+  obtain ⟨hax1, -⟩ := (mem_sharedAxes a.axes tmpl p1 ax1 t1).mp hm1
+  obtain ⟨hax2, -⟩ := (mem_sharedAxes a.axes tmpl p2 ax2 t2).mp hm2
+  have hlt : p1 < p2 := by
+    have := sharedAxes_positions a.axes tmpl
+    rw [hsh] at this
+    simpa using this
+  obtain ⟨r1, r, hr1, hr2, h1, h2, -, -, -, -⟩ := interpAxis_successive lin a (.name ax1.name) (.name ax2.name) p1 p2
+    ax1 ax2 xs1 nx1 xs2 nx2 t1.kind t2.kind left right hwf (by omega)
+    (axisPos_name_at hwf.2.1 hax1) hax1 hxs1 hne1 hnd1 (axisPos_name_at hwf.2.1 hax2) hax2 hxs2 hne2 hnd2
+  rw [← hnx1] at hr1
+  rw [← hnx2] at hr2
+  refine ⟨r1, r, hr1, hr2, ?_, h1, h2, ?_⟩
+  · rw [interpLike_eq_successive, hsh]
+    simp only [List.foldlM_cons, List.foldlM_nil, hr1, bind, Except.bind, hr2]
+    rfl
+  · intro σ1 σ2 hσ1 hσ2 j i1 i2 x1 x2 hj1 hj2 hx1 hx2
+    rw [h2.value σ2 hσ2 j i2 x2 hj2 hx2]
+    congr 1
+    apply List.map_congr_left
+    intro q _
+    have hj1' : (j.set p2 q)[p1]? = some i1 := by
+      rw [List.getElem?_set_ne (by omega)]; exact hj1
+    exact h1.value σ1 hσ1 (j.set p2 q) i1 x1 hj1' hx1
+
+/-! ### the order of the two interpolations -/
+
+/-- **order independence (bilinear interpolation).** Over the rationals with `linRat`, for an array that shares
+exactly two dimensions with the template: interpolating along the second one first gives the same axes, shape and
+metadata as `interp_like`, and the same value in every cell - except, when the two fills differ, in the cells whose
+two new coordinates are BOTH out of range on OPPOSITE sides (below all labels of one dimension and above all labels
+of the other), where each order returns the fill of the dimension it interpolates last
+(`interpLike_order_dependent_corner`).  In particular the order never matters for in-range coordinates, when only one
+coordinate is out of range, or when `left = right`. -/
+theorem interpLike_order_independent (a : DimArray Rat) (tmpl : List Axis) (left right : Rat) (p1 p2 : Nat)
+    (ax1 ax2 t1 t2 : Axis) (xs1 nx1 xs2 nx2 : List Rat)
+    (hwf : a.WF) (hsh : sharedAxes a.axes tmpl = [(p1, ax1, t1), (p2, ax2, t2)])
+    (hxs1 : ax1.labels = xs1.map Label.num) (hne1 : xs1 ≠ []) (hnd1 : xs1.Nodup) (hnx1 : t1.labels = nx1.map Label.num)
+    (hxs2 : ax2.labels = xs2.map Label.num) (hne2 : xs2 ≠ []) (hnd2 : xs2.Nodup) (hnx2 : t2.labels = nx2.map Label.num) :
+    ∃ r r2 r', interpLike linRat a tmpl left right = .ok r ∧
+      interpAxis linRat a (.name ax2.name) t2.labels t2.kind left right = .ok r2 ∧
+      interpAxis linRat r2 (.name ax1.name) t1.labels t1.kind left right = .ok r' ∧
+      r'.axes = r.axes ∧ r'.vals.shape = r.vals.shape ∧ r'.attrs = r.attrs ∧ r'.vkind = r.vkind ∧
+      ∀ (j : List Nat) (i1 i2 : Nat) (x1 x2 : Rat), j[p1]? = some i1 → j[p2]? = some i2 →
+        nx1[i1]? = some x1 → nx2[i2]? = some x2 →
+        ((∀ y ∈ xs1, x1 < y) → (∀ y ∈ xs2, y < x2) → left = right) →
+        ((∀ y ∈ xs1, y < x1) → (∀ y ∈ xs2, x2 < y) → left = right) →
+        r'.vals.get j = r.vals.get j := by
+  have hm1 : (p1, ax1, t1) ∈ sharedAxes a.axes tmpl := by rw [hsh]; simp
+  have hm2 : (p2, ax2, t2) ∈ sharedAxes a.axes tmpl := by rw [hsh]; simp
+  obtain ⟨hax1, -⟩ := (mem_sharedAxes a.axes tmpl p1 ax1 t1).mp hm1
+  obtain ⟨hax2, -⟩ := (mem_sharedAxes a.axes tmpl p2 ax2 t2).mp hm2
+  have hlt : p1 < p2 := by
+    have := sharedAxes_positions a.axes tmpl
+    rw [hsh] at this
+    simpa using this
+  have hk1 := axisPos_name_at hwf.2.1 hax1
+  have hk2 := axisPos_name_at hwf.2.1 hax2
+  obtain ⟨r1, r, hr1, hr, h1, h2, ha1, ha2, hao, hat⟩ := interpAxis_successive linRat a (.name ax1.name) (.name ax2.name)
+    p1 p2 ax1 ax2 xs1 nx1 xs2 nx2 t1.kind t2.kind left right hwf (by omega) hk1 hax1 hxs1 hne1 hnd1 hk2 hax2 hxs2 hne2 hnd2
+  obtain ⟨r2, r', hr2, hr', g2, g1, hb2, hb1, hbo, hbt⟩ := interpAxis_successive linRat a (.name ax2.name) (.name ax1.name)
+    p2 p1 ax2 ax1 xs2 nx2 xs1 nx1 t2.kind t1.kind left right hwf (by omega) hk2 hax2 hxs2 hne2 hnd2 hk1 hax1 hxs1 hne1 hnd1
+  rw [← hnx1] at hr1 hr'
+  rw [← hnx2] at hr hr2
+  refine ⟨r, r2, r', ?_, hr2, hr', ?_, ?_, hbt.trans hat.symm, g1.vkind.trans h2.vkind.symm, ?_⟩
+  · rw [interpLike_eq_successive, hsh]
+    simp only [List.foldlM_cons, List.foldlM_nil, hr1, bind, Except.bind, hr]
+    rfl
+  · apply List.ext_getElem?
+    intro i
+    by_cases hi1 : i = p1
+    · subst hi1; rw [hb1, ha1]
+    · by_cases hi2 : i = p2
+      · subst hi2; rw [hb2, ha2]
+      · rw [hbo i hi2 hi1, hao i hi1 hi2]
+  · rw [g1.shape, g2.shape, h2.shape, h1.shape]
+    exact List.set_comm _ _ (by omega)
+  · intro j i1 i2 x1 x2 hj1 hj2 hx1 hx2 hc1 hc2
+    obtain ⟨σ1, hσ1⟩ := sortsNodes_exists xs1 hnd1
+    obtain ⟨σ2, hσ2⟩ := sortsNodes_exists xs2 hnd2
+    -- the two compositions
+    have e12 : r.vals.get j =
+        interpAt linRat (σ2.map (fun q => xs2.getD q 0))
+          (σ2.map (fun q => interpAt linRat (σ1.map (fun p => xs1.getD p 0))
+            (σ1.map (fun p => a.vals.get ((j.set p1 p).set p2 q))) default left right x1)) default left right x2 := by
+      rw [h2.value σ2 hσ2 j i2 x2 hj2 hx2]
+      congr 1
+      apply List.map_congr_left
+      intro q _
+      have hj1' : (j.set p2 q)[p1]? = some i1 := by rw [List.getElem?_set_ne (by omega)]; exact hj1
+      rw [h1.value σ1 hσ1 (j.set p2 q) i1 x1 hj1' hx1]
+      congr 1
+      apply List.map_congr_left
+      intro p _
+      rw [List.set_comm _ _ (by omega : p2 ≠ p1)]
+    have e21 : r'.vals.get j =
+        interpAt linRat (σ1.map (fun p => xs1.getD p 0))
+          (σ1.map (fun p => interpAt linRat (σ2.map (fun q => xs2.getD q 0))
+            (σ2.map (fun q => a.vals.get ((j.set p1 p).set p2 q))) default left right x2)) default left right x1 := by
+      rw [g1.value σ1 hσ1 j i1 x1 hj1 hx1]
+      congr 1
+      apply List.map_congr_left
+      intro p _
+      have hj2' : (j.set p1 p)[p2]? = some i2 := by rw [List.getElem?_set_ne (by omega)]; exact hj2
+      exact g2.value σ2 hσ2 (j.set p1 p) i2 x2 hj2' hx2
+    rw [e12, e21]
+    -- heads and lasts of the sorted nodes
+    have hS1 : σ1.map (fun p => xs1.getD p 0) ≠ [] := by
+      intro he
+      have := hσ1.nodes_perm
+      rw [he] at this
+      exact hne1 this.symm.eq_nil
+    have hS2 : σ2.map (fun q => xs2.getD q 0) ≠ [] := by
+      intro he
+      have := hσ2.nodes_perm
+      rw [he] at this
+      exact hne2 this.symm.eq_nil
+    have hlo1 := List.head?_eq_some_head hS1
+    have hhi1 := List.getLast?_eq_some_getLast hS1
+    have hlo2 := List.head?_eq_some_head hS2
+    have hhi2 := List.getLast?_eq_some_getLast hS2
+    symm
+    apply interpAt_comm (σ1.map (fun p => xs1.getD p 0)) (σ2.map (fun q => xs2.getD q 0)) σ1 σ2
+      (fun p q => a.vals.get ((j.set p1 p).set p2 q)) default left right x1 x2 _ _ _ _
+      (by simp) (by simp) hlo1 hhi1 hlo2 hhi2
+    · intro hx1lo _ hx2hi
+      apply hc1
+      · intro y hy
+        exact lt_of_lt_of_le hx1lo (head_le_of_mem hσ1.2 hlo1 (hσ1.nodes_perm.mem_iff.mpr hy))
+      · intro y hy
+        exact lt_of_le_of_lt (le_last_of_mem hσ2.2 hhi2 (hσ2.nodes_perm.mem_iff.mpr hy)) hx2hi
+    · intro _ hx1hi hx2lo
+      apply hc2
+      · intro y hy
+        exact lt_of_le_of_lt (le_last_of_mem hσ1.2 hhi1 (hσ1.nodes_perm.mem_iff.mpr hy)) hx1hi
+      · intro y hy
+        exact lt_of_lt_of_le hx2lo (head_le_of_mem hσ2.2 hlo2 (hσ2.nodes_perm.mem_iff.mpr hy))
+
+/-- a 2 x 2 table over `y = 0, 1` (rows) and `x = 0, 1` (columns) -/
+def interpExCorner : DimArray Rat :=
+  { axes := [{ name := "y", labels := [.num 0, .num 1], kind := .f }, { name := "x", labels := [.num 0, .num 1], kind := .f }]
+    vals := { shape := [2, 2], get := fun j => match j with
+      | [0, 0] => 1 | [0, 1] => 2 | [1, 0] => 3 | [1, 1] => 4 | _ => 0 } }
+
+/-- the exception is real: at a corner cell (new `y = 2` above every label, new `x = -1` below every label) with fills
+`left = 5 ≠ right = 7`, `interp_like` (`y` first, then `x`) returns the left fill of the dimension interpolated last,
+the other order the right fill -/
+theorem interpLike_order_dependent_corner :
+    let tmpl : List Axis := [{ name := "x", labels := [.num (-1)], kind := .f }, { name := "y", labels := [.num 2], kind := .f }]
+    (interpLike linRat interpExCorner tmpl 5 7).map (fun r => r.vals.get [0, 0]) = .ok 5 ∧
+    ((interpAxis linRat interpExCorner (.name "x") [.num (-1)] .f 5 7).bind fun r2 =>
+        interpAxis linRat r2 (.name "y") [.num 2] .f 5 7).map (fun r => r.vals.get [0, 0]) = .ok 7 := by
+  constructor <;> rfl
+
+/-- non-vacuity of `interpLike_spec`, `interpLike_two` and `interpLike_order_independent`: the 2 x 3 table
+`interpExArr2` (`y` stored 1, 0; `x` stored 3, 0, 1; cell = 100 y + 10 x) and a template listing `x`, `y` in the other
+order plus a dimension `z` the array does not have; the bilinear value at `y = 1/2`, `x = 2` is 70 -/
+example :
+    let tmpl : List Axis := [{ name := "x", labels := [.num 2, .num (1/2)], kind := .f },
+                             { name := "z", labels := [.num 7], kind := .i },
+                             { name := "y", labels := [.num (1/2)], kind := .f }]
+    ∃ r, interpLike linRat interpExArr2 tmpl (-7) (-9) = .ok r ∧ r.dims = ["y", "x"] ∧ r.vals.shape = [1, 2] ∧
+      r.vals.get [0, 0] = 70 ∧
+      ∃ r2 r', interpAxis linRat interpExArr2 (.name "x") [.num 2, .num (1/2)] .f (-7) (-9) = .ok r2 ∧
+        interpAxis linRat r2 (.name "y") [.num (1/2)] .f (-7) (-9) = .ok r' ∧ r'.vals.get [0, 0] = r.vals.get [0, 0] := by
+  intro tmpl
+  have hwf : interpExArr2.WF := by decide
+  have hsh : sharedAxes interpExArr2.axes tmpl =
+      [(0, { name := "y", labels := [.num 1, .num 0], kind := .i }, { name := "y", labels := [.num (1/2)], kind := .f }),
+       (1, { name := "x", labels := [.num 3, .num 0, .num 1], kind := .i },
+           { name := "x", labels := [.num 2, .num (1/2)], kind := .f })] := by decide +kernel
+  obtain ⟨r1, r, -, -, hr, h1, h2, hval⟩ := interpLike_two linRat interpExArr2 tmpl (-7) (-9) 0 1 _ _ _ _
+    [1, 0] [1/2] [3, 0, 1] [2, 1/2] hwf hsh rfl (by decide) (by decide) rfl rfl (by decide) (by decide) rfl
+  obtain ⟨r₀, r2, r', hr₀, hr2, hr', -, -, -, -, hcell⟩ := interpLike_order_independent interpExArr2 tmpl (-7) (-9) 0 1 _ _ _ _
+    [1, 0] [1/2] [3, 0, 1] [2, 1/2] hwf hsh rfl (by decide) (by decide) rfl rfl (by decide) (by decide) rfl
+  rw [hr] at hr₀
+  injection hr₀ with hr₀
+  subst hr₀
+  have hnum : ∀ ax ∈ interpExArr2.axes, ∀ t, tmpl.find? (·.name == ax.name) = some t →
+      ∃ xs nx : List Rat, ax.labels = xs.map Label.num ∧ xs ≠ [] ∧ xs.Nodup ∧ t.labels = nx.map Label.num := by
+    intro ax hax t ht
+    simp only [interpExArr2, List.mem_cons, List.not_mem_nil, or_false] at hax
+    rcases hax with rfl | rfl
+    · have h : tmpl.find? (fun e => e.name == "y") = some { name := "y", labels := [.num (1/2)], kind := .f } := by decide +kernel
+      rw [h] at ht; injection ht with ht; subst ht
+      exact ⟨[1, 0], [1/2], rfl, by decide, by decide, rfl⟩
+    · have h : tmpl.find? (fun e => e.name == "x") = some { name := "x", labels := [.num 2, .num (1/2)], kind := .f } := by decide +kernel
+      rw [h] at ht; injection ht with ht; subst ht
+      exact ⟨[3, 0, 1], [2, 1/2], rfl, by decide, by decide, rfl⟩
+  obtain ⟨rs, hrs, -, -, -, haxes, -, -⟩ := interpLike_spec linRat interpExArr2 tmpl (-7) (-9) hwf hnum
+  rw [hr] at hrs
+  injection hrs with hrs
+  subst hrs
+  refine ⟨r, hr, ?_, ?_, ?_, r2, r', hr2, hr', ?_⟩
+  · show r.axes.map (·.name) = _
+    rw [haxes]; rfl
+  · rw [h2.shape, h1.shape]; rfl
+  · rw [hval [1, 0] [1, 2, 0] ⟨by decide, by unfold StrictInc; decide⟩ ⟨by decide, by unfold StrictInc; decide⟩
+      [0, 0] 0 0 (1/2) 2 rfl rfl rfl rfl]
+    decide +kernel
+  · exact hcell [0, 0] 0 0 (1/2) 2 rfl rfl rfl rfl
+      (fun h => absurd (h 0 (by simp)) (by norm_num)) (fun h => absurd (h 1 (by simp)) (by norm_num))
+
+/-! ## `Dataset.interp_like`
+
+`Dataset.interp_like(other, left, right)` (`DSV.interpLikeDs`) is the same loop on a Dataset: it walks over the
+DATASET's axes in the order the Dataset holds them and calls `Dataset.interp_axis` by name along every dimension the
+template has.  Every variable therefore comes back interpolated along those of these dimensions that it has, in the
+Dataset's order - which is `interp_like` of the variable itself whenever the variable lists its dimensions in the
+Dataset's order (`DSV.interpLikeDs_spec`); for a variable stored the other way round the two differ in the corner
+cells of `interpLike_order_dependent_corner` when the fills differ, and only there
+(`interpLike_order_independent`). -/
+
+/-- `interp_axis`, by name and one after the other, along those of the listed dimension names that the array has and
+the template shares -/
+def interpAlong {α : Type} [Inhabited α] (lin : α → α → Rat → α) (tmpl : List Axis) (left right : α)
+    (names : List String) (v : DimArray α) : Except Err (DimArray α) :=
+  (names.filter (fun s => decide (s ∈ v.dims))).foldlM (fun o s =>
+    match tmpl.find? (·.name == s) with
+    | some t => interpAxis lin o (.name s) t.labels t.kind left right
+    | none => pure o) v
+
+/-- `interp_like` of an array is `interpAlong` its own dimension names -/
+theorem interpLike_eq_interpAlong {α : Type} [Inhabited α] (lin : α → α → Rat → α) (v : DimArray α) (tmpl : List Axis)
+    (left right : α) : interpLike lin v tmpl left right = interpAlong lin tmpl left right v.dims v := by
+  unfold interpAlong
+  have : v.dims.filter (fun s => decide (s ∈ v.dims)) = v.dims := by
+    rw [List.filter_eq_self]; intro s hs; simpa using hs
+  rw [this]
+  show v.axes.foldlM (interpLikeStep lin tmpl left right) v = (v.axes.map (·.name)).foldlM _ v
+  rw [foldlM_map']
+  congr 1
+
+/-- a list of names in which the array's dimensions appear in the array's own order (as a subsequence): the same -/
+theorem interpAlong_of_sublist {α : Type} [Inhabited α] (lin : α → α → Rat → α) (v : DimArray α) (tmpl : List Axis)
+    (left right : α) (names : List String) (hsub : v.dims.Sublist names) (hnd : names.Nodup) :
+    interpAlong lin tmpl left right names v = interpLike lin v tmpl left right := by
+  rw [interpLike_eq_interpAlong]
+  unfold interpAlong
+  rw [filter_mem_of_sublist hsub hnd]
+  have : v.dims.filter (fun s => decide (s ∈ v.dims)) = v.dims := by
+    rw [List.filter_eq_self]; intro s hs; simpa using hs
+  rw [this]
+
+namespace DSV
+
+/-- two entries of a variable list with distinct keys that carry the same key are the same entry -/
+theorem vars_key_inj {α : Type} {vars : List (String × DimArray α)} (hk : (vars.map (·.1)).Nodup) {k : String}
+    {r r' : DimArray α} (h : (k, r) ∈ vars) (h' : (k, r') ∈ vars) : r = r' := by
+  induction vars with
+  | nil => cases h
+  | cons kv vars ih =>
+    rw [List.map_cons, List.nodup_cons] at hk
+    rcases List.mem_cons.mp h with e | hm
+    · rcases List.mem_cons.mp h' with e' | hm'
+      · rw [← e'] at e; exact (Prod.mk.inj e).2
+      · exact absurd (List.mem_map_of_mem (f := (·.1)) hm') (by have := hk.1; rw [← e] at this; exact this)
+    · rcases List.mem_cons.mp h' with e' | hm'
+      · exact absurd (List.mem_map_of_mem (f := (·.1)) hm) (by have := hk.1; rw [← e'] at this; exact this)
+      · exact ih hk.2 hm hm'
+
+/-- a variable of a good Dataset whose dimension names are non-empty is a well-formed array -/
+theorem GoodDs.var_wf {α : Type} {ds : Ds α} (hg : GoodDs ds) (hnames : ∀ e ∈ ds.axes, e.name ≠ "") {k : String}
+    {v : DimArray α} (hkv : (k, v) ∈ ds.vars) : v.WF :=
+  ⟨(hg.2.2.2 (k, v) hkv).2.1, (hg.2.2.2 (k, v) hkv).1, fun ax hax => hnames ax (hg.2.1 (k, v) hkv ax hax)⟩
+
+/-- `Dataset.interp_axis` seen from one variable that has the dimension: the variable of the result is
+`DimArray.interp_axis` of the variable and satisfies the per-fibre specification -/
+theorem interpAxisDs_var {α : Type} [Inhabited α] (lin : α → α → Rat → α) (ds out : Ds α) (name : String)
+    (ax : Axis) (xs nx : List Rat) (nk : Kind) (left right : α) (hg : GoodDs ds)
+    (hfind : ds.axes.find? (fun a => a.name == name) = some ax)
+    (hxs : ax.labels = xs.map Label.num) (hne : xs ≠ []) (hnd : xs.Nodup)
+    (h : interpAxisDs lin ds name (nx.map Label.num) nk left right = .ok out)
+    (k : String) (v : DimArray α) (hkv : (k, v) ∈ ds.vars) (hwf : v.WF) (hin : name ∈ v.dims) :
+    ∃ r, (k, r) ∈ out.vars ∧ interpAxis lin v (.name name) (nx.map Label.num) nk left right = .ok r ∧
+      InterpolatesAlong lin v r (v.dims.idxOf name) ax xs nx nk left right := by
+  obtain ⟨out', hout', -, -, -, -, -, hv⟩ := interpAxisDs_spec lin ds name ax xs nx nk left right hg hfind hxs hne
+  rw [h] at hout'
+  injection hout' with hout'
+  subst hout'
+  obtain ⟨r, hr, hyes, -⟩ := hv k v hkv
+  refine ⟨r, hr, hyes hin, ?_⟩
+  have hlt : v.dims.idxOf name < v.axes.length := by
+    simpa [DimArray.dims] using (List.idxOf_lt_length_iff.2 hin : v.dims.idxOf name < v.dims.length)
+  have hax := axes_getD_idxOf v name hin
+  have haxe : v.axes.getD (v.dims.idxOf name) default = ax := hg.axis_eq hfind hkv _ hax.1 hax.2
+  have hax' : v.axes[v.dims.idxOf name]? = some ax := by
+    rw [← haxe, List.getD_eq_getElem?_getD, List.getElem?_eq_getElem hlt]; rfl
+  obtain ⟨r', hr', hspec⟩ := interpAxis_spec lin v (.name name) _ ax xs nx nk left right hwf
+    (axisPos_name v name hin) hax' hxs hne hnd
+  rw [hyes hin] at hr'
+  injection hr' with hr'
+  rw [hr']
+  exact hspec
+
+/-- replacing, in a list of axes with distinct names, every axis that carries the name of the axis at position `n`
+is setting position `n` -/
+theorem map_repl_eq_set {axes : List Axis} (hnd : (axes.map (·.name)).Nodup) {n : Nat} {ax : Axis}
+    (hax : axes[n]? = some ax) (c : Axis) :
+    axes.map (fun e => if e.name == ax.name then c else e) = axes.set n c := by
+  obtain ⟨hl, he⟩ := List.getElem?_eq_some_iff.mp hax
+  apply List.ext_getElem?
+  intro i
+  rw [List.getElem?_map]
+  by_cases hi : i = n
+  · subst hi
+    rw [hax, List.getElem?_set_self hl]
+    simp
+  · rw [List.getElem?_set_ne (Ne.symm hi)]
+    cases hq : axes[i]? with
+    | none => rfl
+    | some e =>
+      obtain ⟨hil, hie⟩ := List.getElem?_eq_some_iff.mp hq
+      have hne : e.name ≠ ax.name := by
+        intro hn
+        apply hi
+        have h1 : (axes.map (·.name))[i]'(by simpa using hil) = (axes.map (·.name))[n]'(by simpa using hl) := by
+          simp [hie, he, hn]
+        have hp := List.pairwise_iff_getElem.mp hnd
+        rcases Nat.lt_trichotomy i n with hlt | heq | hgt
+        · exact absurd h1 (hp i n (by simpa using hil) (by simpa using hl) hlt)
+        · exact heq
+        · exact absurd h1.symm (hp n i (by simpa using hl) (by simpa using hil) hgt)
+      simp [hne]
+
+/-- `Dataset.interp_axis` keeps a good Dataset good (and the dimension names as they are) -/
+theorem interpAxisDs_good {α : Type} [Inhabited α] (lin : α → α → Rat → α) (ds out : Ds α) (name : String)
+    (ax : Axis) (xs nx : List Rat) (nk : Kind) (left right : α) (hg : GoodDs ds) (hnames : ∀ e ∈ ds.axes, e.name ≠ "")
+    (hfind : ds.axes.find? (fun a => a.name == name) = some ax)
+    (hxs : ax.labels = xs.map Label.num) (hne : xs ≠ []) (hnd : xs.Nodup)
+    (h : interpAxisDs lin ds name (nx.map Label.num) nk left right = .ok out) :
+    GoodDs out ∧ (∀ e ∈ out.axes, e.name ≠ "") := by
+  obtain ⟨out', hout', hkeys, -, hsh, hown, haxes, hv⟩ :=
+    interpAxisDs_spec lin ds name ax xs nx nk left right hg hfind hxs hne
+  rw [h] at hout'
+  injection hout' with hout'
+  subst hout'
+  have hname := (find?_name_some hfind).2
+  have hnames' : ∀ e ∈ out.axes, e.name ≠ "" := by
+    intro e he
+    rw [haxes] at he
+    obtain ⟨e0, he0, rfl⟩ := List.mem_map.mp he
+    by_cases hc : (e0.name == name) = true
+    · rw [if_pos hc]
+      show name ≠ ""
+      rw [← hname]
+      exact hnames ax (find?_name_some hfind).1
+    · rw [if_neg hc]; exact hnames e0 he0
+  have hk' : out.keys.Nodup := by rw [hkeys]; exact hg.2.2.1
+  refine ⟨⟨hsh, hown, hk', ?_⟩, hnames'⟩
+  rintro ⟨k, r⟩ hkr
+  -- the variable of the input with this key
+  have hkin : k ∈ ds.keys := by rw [← hkeys]; exact List.mem_map_of_mem (f := (·.1)) hkr
+  obtain ⟨⟨k', v⟩, hkv, hk'v⟩ := List.mem_map.mp hkin
+  simp only at hk'v
+  subst hk'v
+  by_cases hin : name ∈ v.dims
+  · obtain ⟨r', hr', -, hspec⟩ := interpAxisDs_var lin ds out name ax xs nx nk left right hg hfind hxs hne hnd h
+      k' v hkv (hg.var_wf hnames hkv) hin
+    have : r = r' := vars_key_inj hk' hkr hr'
+    subst this
+    refine ⟨hspec.wf.2.1, hspec.wf.1, ?_⟩
+    intro e he
+    rw [hspec.axes_eq] at he
+    rcases List.mem_or_eq_of_mem_set he with he | rfl
+    · exact (hg.2.2.2 (k', v) hkv).2.2 e he
+    · rfl
+  · obtain ⟨r', hr', -, hno⟩ := hv k' v hkv
+    have : r = r' := vars_key_inj hk' hkr hr'
+    subst this
+    rw [hno hin]
+    exact hg.2.2.2 (k', v) hkv
+
+/-- the loop of `Dataset.interp_like` from the `n`-th axis of the Dataset on -/
+private theorem interpLikeDs_suffix {α : Type} [Inhabited α] (lin : α → α → Rat → α) (tmpl : List Axis) (left right : α) :
+    ∀ (l : List Axis) (n : Nat) (obj : Ds α), GoodDs obj → (∀ e ∈ obj.axes, e.name ≠ "") → obj.axes.drop n = l →
+      (∀ ax ∈ l, ∀ t, tmpl.find? (·.name == ax.name) = some t →
+        ∃ xs nx : List Rat, ax.labels = xs.map Label.num ∧ xs ≠ [] ∧ xs.Nodup ∧ t.labels = nx.map Label.num) →
+      ∃ out, l.foldlM (interpLikeDsStep lin tmpl left right) obj = .ok out ∧ out.keys = obj.keys ∧
+        out.attrs = obj.attrs ∧ GoodDs out ∧ out.axes = obj.axes.take n ++ l.map (likeAxis tmpl) ∧
+        ∀ k v, (k, v) ∈ obj.vars → ∃ r, (k, r) ∈ out.vars ∧
+          interpAlong lin tmpl left right (l.map (·.name)) v = .ok r := by
+  intro l
+  induction l with
+  | nil =>
+    intro n obj hg _ hdrop _
+    refine ⟨obj, rfl, rfl, rfl, hg, ?_, fun k v hkv => ⟨v, hkv, rfl⟩⟩
+    rw [List.map_nil, List.append_nil]
+    have : obj.axes.length ≤ n := by
+      rcases Nat.lt_or_ge n obj.axes.length with h | h
+      · have := congrArg List.length hdrop
+        simp at this; omega
+      · exact h
+    rw [List.take_of_length_le this]
+  | cons ax l ih =>
+    intro n obj hg hnames hdrop hnum
+    obtain ⟨hlt, hax, hdrop'⟩ := drop_eq_cons hdrop
+    have htake : obj.axes.take (n + 1) = obj.axes.take n ++ [ax] := by
+      rw [List.take_add_one, hax]; rfl
+    have hmem : ax ∈ obj.axes := List.mem_of_getElem? hax
+    have hdn : (obj.axes.map (·.name)).Nodup := hg.1.2.2
+    rw [List.foldlM_cons]
+    cases hf : tmpl.find? (·.name == ax.name) with
+    | none =>
+      have hstep : interpLikeDsStep lin tmpl left right obj ax = .ok obj := by
+        unfold interpLikeDsStep; rw [hf]; rfl
+      rw [hstep]
+      obtain ⟨out, hout, hkeys, hat, hgo, haxes, hvars⟩ :=
+        ih (n + 1) obj hg hnames hdrop' (fun a ha => hnum a (List.mem_cons_of_mem _ ha))
+      have hlike : likeAxis tmpl ax = ax := by unfold likeAxis; rw [hf]
+      refine ⟨out, hout, hkeys, hat, hgo, ?_, ?_⟩
+      · rw [haxes, htake, List.map_cons, hlike, List.append_assoc]; rfl
+      · intro k v hkv
+        obtain ⟨r, hr, hal⟩ := hvars k v hkv
+        refine ⟨r, hr, ?_⟩
+        unfold interpAlong at hal ⊢
+        rw [List.map_cons, List.filter_cons]
+        split
+        · rw [List.foldlM_cons, hf]
+          exact hal
+        · exact hal
+    | some t =>
+      obtain ⟨xs, nx, hxs, hne, hnd, hnx⟩ := hnum ax (by simp) t hf
+      have hfind : obj.axes.find? (fun e => e.name == ax.name) = some ax := find?_name_of_mem hdn hmem
+      obtain ⟨out1, hout1, hkeys1, hat1, -, -, haxes1, hv1⟩ :=
+        interpAxisDs_spec lin obj ax.name ax xs nx t.kind left right hg hfind hxs hne
+      have hcall : interpAxisDs lin obj ax.name t.labels t.kind left right = .ok out1 := by rw [hnx]; exact hout1
+      have hstep : interpLikeDsStep lin tmpl left right obj ax = .ok out1 := by
+        unfold interpLikeDsStep; rw [hf]; exact hcall
+      rw [hstep]
+      obtain ⟨hg1, hnames1⟩ := interpAxisDs_good lin obj out1 ax.name ax xs nx t.kind left right hg hnames hfind
+        hxs hne hnd hout1
+      have haxes1' : out1.axes = obj.axes.set n { name := ax.name, labels := nx.map Label.num, kind := t.kind } := by
+        rw [haxes1]; exact map_repl_eq_set hdn hax _
+      have hdrop1 : out1.axes.drop (n + 1) = l := by rw [haxes1', drop_succ_set]; exact hdrop'
+      obtain ⟨out, hout, hkeys, hat, hgo, haxes, hvars⟩ :=
+        ih (n + 1) out1 hg1 hnames1 hdrop1 (fun a ha => hnum a (List.mem_cons_of_mem _ ha))
+      have hlike : likeAxis tmpl ax = { name := ax.name, labels := nx.map Label.num, kind := t.kind } := by
+        unfold likeAxis; rw [hf]; simp only [hnx]
+      refine ⟨out, hout, hkeys.trans hkeys1, hat.trans hat1, hgo, ?_, ?_⟩
+      · rw [haxes, haxes1', take_succ_set _ _ _ hlt, List.map_cons, hlike, List.append_assoc]; rfl
+      · intro k v hkv
+        by_cases hin : ax.name ∈ v.dims
+        · obtain ⟨r1, hr1, hcall1, hspec⟩ := interpAxisDs_var lin obj out1 ax.name ax xs nx t.kind left right hg hfind
+            hxs hne hnd hout1 k v hkv (hg.var_wf hnames hkv) hin
+          obtain ⟨r, hr, hal⟩ := hvars k r1 hr1
+          refine ⟨r, hr, ?_⟩
+          have hax' : v.axes[v.dims.idxOf ax.name]? = some ax := by
+            have := hspec.axis
+            have hl : v.dims.idxOf ax.name < v.axes.length := by
+              rw [← hspec.ndim]; exact (List.getElem?_eq_some_iff.mp this).1
+            have h2 := axes_getD_idxOf v ax.name hin
+            have h3 : v.axes.getD (v.dims.idxOf ax.name) default = ax := hg.axis_eq hfind hkv _ h2.1 h2.2
+            have h4 : v.axes[v.dims.idxOf ax.name]? = some (v.axes.getD (v.dims.idxOf ax.name) default) := by
+              rw [List.getD_eq_getElem?_getD, List.getElem?_eq_getElem hl]; rfl
+            rw [h3] at h4
+            exact h4
+          have hdims : r1.dims = v.dims := hspec.names hax'
+          unfold interpAlong at hal ⊢
+          rw [hdims] at hal
+          rw [List.map_cons, List.filter_cons, if_pos (by simpa using hin), List.foldlM_cons, hf]
+          simp only
+          rw [hnx, hcall1]
+          exact hal
+        · obtain ⟨r1, hr1, -, hno⟩ := hv1 k v hkv
+          rw [hno hin] at hr1
+          obtain ⟨r, hr, hal⟩ := hvars k v hr1
+          refine ⟨r, hr, ?_⟩
+          unfold interpAlong at hal ⊢
+          rw [List.map_cons, List.filter_cons, if_neg (by simpa using hin)]
+          exact hal
+
+/-- **`Dataset.interp_like`, end to end.** On a good Dataset (shared axes, distinct keys, well-formed variables) with
+non-empty dimension names, every dimension of which that the template shares has distinct numeric labels (at least
+one, any stored order) and numeric template labels: the call succeeds; keys and Dataset metadata are kept; the result
+is again a good Dataset; its axes are the Dataset's axes, the shared ones carrying exactly the template's labels;
+every variable comes back as `interp_axis` applied successively along those of the DATASET's dimensions (in the
+Dataset's order) that the variable has and the template shares (`interpAlong`) - hence unchanged when it shares
+no dimension with the template, and EXACTLY `interp_like` of that variable when its dimensions appear in the
+Dataset's order (as a subsequence of the Dataset's dimensions). -/
+theorem interpLikeDs_spec {α : Type} [Inhabited α] (lin : α → α → Rat → α) (ds : Ds α) (tmpl : List Axis)
+    (left right : α) (hg : GoodDs ds) (hnames : ∀ e ∈ ds.axes, e.name ≠ "")
+    (hnum : ∀ ax ∈ ds.axes, ∀ t, tmpl.find? (·.name == ax.name) = some t →
+      ∃ xs nx : List Rat, ax.labels = xs.map Label.num ∧ xs ≠ [] ∧ xs.Nodup ∧ t.labels = nx.map Label.num) :
+    ∃ out, interpLikeDs lin ds tmpl left right = .ok out ∧ out.keys = ds.keys ∧ out.attrs = ds.attrs ∧ GoodDs out ∧
+      out.axes = ds.axes.map (likeAxis tmpl) ∧
+      ∀ k v, (k, v) ∈ ds.vars → ∃ r, (k, r) ∈ out.vars ∧
+        interpAlong lin tmpl left right ds.dims v = .ok r ∧
+        ((∀ s ∈ v.dims, tmpl.find? (·.name == s) = none) → r = v) ∧
+        (v.dims.Sublist ds.dims → interpLike lin v tmpl left right = .ok r) := by
+  obtain ⟨out, hout, hkeys, hat, hgo, haxes, hvars⟩ :=
+    interpLikeDs_suffix lin tmpl left right ds.axes 0 ds hg hnames rfl hnum
+  refine ⟨out, hout, hkeys, hat, hgo, by simpa using haxes, ?_⟩
+  intro k v hkv
+  obtain ⟨r, hr, hal⟩ := hvars k v hkv
+  refine ⟨r, hr, hal, ?_, ?_⟩
+  · intro hnone
+    have hall : ∀ (names : List String) (o : DimArray α), (∀ s ∈ names, tmpl.find? (·.name == s) = none) →
+        names.foldlM (fun o s => match tmpl.find? (·.name == s) with
+          | some t => interpAxis lin o (.name s) t.labels t.kind left right
+          | none => pure o) o = .ok o := by
+      intro names
+      induction names with
+      | nil => intro o _; rfl
+      | cons s names ih =>
+        intro o hs
+        rw [List.foldlM_cons, hs s (by simp)]
+        exact ih o (fun s' hs' => hs s' (List.mem_cons_of_mem _ hs'))
+    unfold interpAlong at hal
+    rw [hall _ v (fun s hs => hnone s (by simpa using (List.mem_filter.mp hs).2))] at hal
+    injection hal with hal
+    exact hal.symm
+  · intro hsub
+    rw [← interpAlong_of_sublist lin v tmpl left right ds.dims hsub hg.1.2.2]
+    exact hal
+
+/-- a template without any of the Dataset's dimensions: the Dataset itself -/
+theorem interpLikeDs_no_shared {α : Type} [Inhabited α] (lin : α → α → Rat → α) (ds : Ds α) (tmpl : List Axis)
+    (left right : α) (h : ∀ ax ∈ ds.axes, tmpl.find? (·.name == ax.name) = none) :
+    interpLikeDs lin ds tmpl left right = .ok ds := by
+  unfold interpLikeDs
+  rw [interpLikeDs_fold lin tmpl left right ds.axes 0 ds]
+  have : sharedFrom 0 ds.axes tmpl = [] := by
+    unfold sharedFrom
+    rw [List.filterMap_eq_nil_iff]
+    intro e he
+    have hm : e.1 ∈ ds.axes := by
+      have := List.mem_map_of_mem (f := fun e : Axis × Nat => e.1) he
+      rwa [zipIdx_map_fst] at this
+    rw [h e.1 hm]; rfl
+  rw [this]; rfl
+
+/-- non-vacuity of `interpLikeDs_spec` on the concrete Dataset of C14 (`x` stored 10, 30, 20; `a` over (x, y), `b`
+over (y) only) and a template over (y, x, z): the call succeeds, both variables list their dimensions in the
+Dataset's order, so both come back as `interp_like` of the variable -/
+example :
+    let tmpl : List Axis := [{ name := "y", labels := [.num 1], kind := .i },
+                             { name := "x", labels := [.num 15, .num 10, .num 99], kind := .f },
+                             { name := "z", labels := [.num 0], kind := .i }]
+    ∃ out, interpLikeDs (fun a _ _ => a) exDs tmpl 0 0 = .ok out ∧ out.keys = ["a", "b"] ∧ out.dims = ["x", "y"] ∧
+      (∃ r, ("a", r) ∈ out.vars ∧ interpLike (fun a _ _ => a) exA tmpl 0 0 = .ok r) ∧
+      (∃ r, ("b", r) ∈ out.vars ∧ interpLike (fun a _ _ => a) exB tmpl 0 0 = .ok r) := by
+  intro tmpl
+  have hnum : ∀ ax ∈ exDs.axes, ∀ t, tmpl.find? (·.name == ax.name) = some t →
+      ∃ xs nx : List Rat, ax.labels = xs.map Label.num ∧ xs ≠ [] ∧ xs.Nodup ∧ t.labels = nx.map Label.num := by
+    intro ax hax t ht
+    simp only [exDs, List.mem_cons, List.not_mem_nil, or_false] at hax
+    rcases hax with rfl | rfl
+    · have h : tmpl.find? (fun e => e.name == exX.name) =
+          some { name := "x", labels := [.num 15, .num 10, .num 99], kind := .f } := by decide
+      rw [h] at ht; injection ht with ht; subst ht
+      exact ⟨[10, 30, 20], [15, 10, 99], rfl, by decide, by decide, rfl⟩
+    · have h : tmpl.find? (fun e => e.name == exY.name) = some { name := "y", labels := [.num 1], kind := .i } := by decide
+      rw [h] at ht; injection ht with ht; subst ht
+      exact ⟨[1, 2], [1], rfl, by decide, by decide, rfl⟩
+  have hnames : ∀ e ∈ exDs.axes, e.name ≠ "" := by
+    intro e he
+    simp only [exDs, List.mem_cons, List.not_mem_nil, or_false] at he
+    rcases he with rfl | rfl <;> decide
+  obtain ⟨out, hout, hkeys, -, -, haxes, hvars⟩ := interpLikeDs_spec (fun a _ _ => a) exDs tmpl 0 0 exDs_good hnames hnum
+  refine ⟨out, hout, hkeys, ?_, ?_, ?_⟩
+  · show out.axes.map (·.name) = _
+    rw [haxes]; rfl
+  · obtain ⟨r, hr, -, -, hsub⟩ := hvars "a" exA (by simp [exDs])
+    exact ⟨r, hr, hsub (by decide)⟩
+  · obtain ⟨r, hr, -, -, hsub⟩ := hvars "b" exB (by simp [exDs])
+    exact ⟨r, hr, hsub (by decide)⟩
+
+/-- a Dataset over (y, x) holding the 2 x 2 table `interpExCorner` as `p` and the same table stored the other way
+round, over (x, y), as `q` -/
+def interpExCornerT : DimArray Rat :=
+  { axes := [{ name := "x", labels := [.num 0, .num 1], kind := .f }, { name := "y", labels := [.num 0, .num 1], kind := .f }]
+    vals := { shape := [2, 2], get := fun j => match j with
+      | [0, 0] => 1 | [0, 1] => 3 | [1, 0] => 2 | [1, 1] => 4 | _ => 0 } }
+
+def interpExCornerDs : Ds Rat :=
+  { axes := interpExCorner.axes, vars := [("p", interpExCorner), ("q", interpExCornerT)] }
+
+/-- the order is the DATASET's, not the variable's: for the variable `q`, stored over (x, y) in a Dataset whose axes
+are (y, x), `Dataset.interp_like` interpolates along `y` first (as for every variable), `q.interp_like` along `x` first;
+at the corner cell (`x = -1` below, `y = 2` above, fills 5 and 7) the Dataset returns 5 and the variable's own
+`interp_like` 7 - the condition "the variable lists its dimensions in the Dataset's order" of `interpLikeDs_spec`
+cannot be dropped when the fills differ -/
+theorem interpLikeDs_order_is_the_datasets :
+    let tmpl : List Axis := [{ name := "x", labels := [.num (-1)], kind := .f }, { name := "y", labels := [.num 2], kind := .f }]
+    (interpLikeDs linRat interpExCornerDs tmpl 5 7).map (fun out => (out.get? "q").map (fun r => r.vals.get [0, 0])) =
+      .ok (some 5) ∧
+    (interpLike linRat interpExCornerT tmpl 5 7).map (fun r => r.vals.get [0, 0]) = .ok 7 := by
+  constructor <;> decide +kernel
 
 end DSV
 
